@@ -1122,10 +1122,18 @@ theorem minName_mem (l : List Str) (n : Str) (h : minName l = some n) : n ∈ l 
         exact List.mem_cons_of_mem _ (ih m hm)
       · simp only [Option.some.injEq] at h; subst h; simp
 
-/-- The generated names of one provider's CUSTOM policies never carry another provider's id prefix
-    (fails for provider names such as `x` and `x-ns`: `ext_authz_prefix_quirk_witness`). -/
+/-- Along the chain (providers in the order of their filters): the generated names of a provider's
+    CUSTOM policies never carry the id prefix of a provider whose filters come LATER - only an id left
+    behind by an earlier filter can reach a later `ext_authz` filter (fails for `x` before `x-ns`:
+    `ext_authz_prefix_quirk_witness`; holds for `opa` before `opa2`). -/
+def IsolatedAlong (o : BuildOpts) (cps : List Policy) : List Str → Prop
+  | [] => True
+  | pr :: t =>
+    (∀ p ∈ cps, p.provider = pr → ∀ q ∈ t, ∀ e ∈ customEntries o p, hasPrefix (extPrefix q) e.1 = false) ∧
+    IsolatedAlong o cps t
+
 def CustomIsolated (o : BuildOpts) (cps : List Policy) : Prop :=
-  ∀ p ∈ cps, ∀ pr ∈ cps.map (·.provider), pr ≠ p.provider → ∀ e ∈ customEntries o p, hasPrefix (extPrefix pr) e.1 = false
+  IsolatedAlong o cps (sortDedup (cps.map (·.provider)))
 
 theorem customEntries_own_prefix (o : BuildOpts) (p : Policy) :
     ∀ e ∈ customEntries o p, hasPrefix (extPrefix p.provider) e.1 = true := by
@@ -1198,17 +1206,17 @@ theorem badCustomFilter_shadowPrefix (o : BuildOpts) (cps : List Policy) (pr : S
   rw [this]; decide
 
 /-- One provider's pair of filters (RBAC with the shadow rules, then `ext_authz`) in front of a chain. -/
-theorem extAuthzEnabled_customFilters (o : BuildOpts) (cps : List Policy) (pr : Str) (rest : List GFilter)
+theorem extAuthzEnabled_customFilters (o : BuildOpts) (cps : List Policy) (pr : Str) (t : ExtTarget) (rest : List GFilter)
     (cur : Option Str) (req : Request) :
     ∃ f : Filter, f.shadow = some ⟨.deny, providerRules o cps pr⟩ ∧
-      extAuthzEnabled (customFilters o cps pr ++ rest) cur req =
+      extAuthzEnabled (customFilters o cps pr t ++ rest) cur req =
         (if ((shadowWrite f req).orElse (fun _ => cur)).any (hasPrefix (extPrefix pr)) then [extPrefix pr] else []) ++
           extAuthzEnabled rest ((shadowWrite f req).orElse (fun _ => cur)) req := by
   refine ⟨{ name := rbacFilterName o.shapeTCP, rules := none,
             shadow := some ⟨.deny, providerRules o cps pr⟩,
             shadowPrefix := extAuthzShadowPrefix,
             statPrefix := if o.shapeTCP then "tcp.".toList else [] }, rfl, ?_⟩
-  show extAuthzEnabled (GFilter.rbac _ :: GFilter.extAuthz _ _ _ :: rest) cur req = _
+  show extAuthzEnabled (GFilter.rbac _ :: GFilter.extAuthz _ _ _ _ :: rest) cur req = _
   rw [extAuthzEnabled, extAuthzEnabled]
   have : (extAuthzShadowPrefix == extAuthzShadowPrefix) = true := beq_self_eq_true _
   simp only [this, if_true]
@@ -1225,12 +1233,13 @@ theorem extAuthzEnabled_bad (o : BuildOpts) (cps : List Policy) (provs : List St
 /-- The chain of the CUSTOM builder for defined / undefined providers, walked from any stored id that
     carries none of the remaining providers' prefixes. -/
 theorem extAuthzEnabled_good (o : BuildOpts) (c : CustomOpts) (cps : List Policy) (req : Request)
-    (hnd : ((cps.flatMap (customEntries o)).map (·.1)).Nodup) (hiso : CustomIsolated o cps)
-    (provs : List Str) (hsub : ∀ pr ∈ provs, pr ∈ cps.map (·.provider)) (hnp : provs.Nodup) (cur : Option Str)
+    (hnd : ((cps.flatMap (customEntries o)).map (·.1)).Nodup)
+    (provs : List Str) (hiso : IsolatedAlong o cps provs)
+    (hsub : ∀ pr ∈ provs, pr ∈ cps.map (·.provider)) (hnp : provs.Nodup) (cur : Option Str)
     (hinv : ∀ n, cur = some n → ∀ pr ∈ provs, hasPrefix (extPrefix pr) n = false) :
     extAuthzEnabled (provs.flatMap fun pr =>
         if c.providers.contains pr then
-          (if o.shapeTCP && c.httpProviders.contains pr then [] else customFilters o cps pr)
+          (if o.shapeTCP && c.httpProviders.contains pr then [] else customFilters o cps pr (c.targetOf pr))
         else [.rbac (badCustomFilter o cps pr)]) cur req =
       (provs.filter fun pr => c.providers.contains pr && !(o.shapeTCP && c.httpProviders.contains pr) &&
         (cps.filter fun p => p.provider == pr && !p.dryRun).any (compiledPolicyMatch o false req)).map extPrefix := by
@@ -1247,19 +1256,19 @@ theorem extAuthzEnabled_good (o : BuildOpts) (c : CustomOpts) (cps : List Policy
     | false =>
       simp only [Bool.false_eq_true, if_false, Bool.false_and, List.singleton_append, extAuthzEnabled,
         badCustomFilter_shadowPrefix]
-      exact ih hsubt htn cur hinvt
+      exact ih hiso.2 hsubt htn cur hinvt
     | true =>
       simp only [if_true, Bool.true_and]
       cases hskip : (o.shapeTCP && c.httpProviders.contains pr) with
       | true =>
         simp only [if_true, Bool.not_true, Bool.false_and, Bool.false_eq_true, if_false, List.nil_append]
-        exact ih hsubt htn cur hinvt
+        exact ih hiso.2 hsubt htn cur hinvt
       | false =>
         simp only [Bool.false_eq_true, if_false, Bool.not_false, Bool.true_and]
-        obtain ⟨f, hf, hwalk⟩ := extAuthzEnabled_customFilters o cps pr
+        obtain ⟨f, hf, hwalk⟩ := extAuthzEnabled_customFilters o cps pr (c.targetOf pr)
           (t.flatMap fun pr =>
             if c.providers.contains pr then
-              (if o.shapeTCP && c.httpProviders.contains pr then [] else customFilters o cps pr)
+              (if o.shapeTCP && c.httpProviders.contains pr then [] else customFilters o cps pr (c.targetOf pr))
             else [.rbac (badCustomFilter o cps pr)]) cur req
         rw [hwalk]
         have hsw := shadowWrite_custom o cps pr req f hf hnd
@@ -1274,7 +1283,7 @@ theorem extAuthzEnabled_good (o : BuildOpts) (c : CustomOpts) (cps : List Policy
               simp only [Option.any_some]
               exact hinv n hc pr (by simp)
           simp only [e1, hno, Bool.false_eq_true, if_false, List.nil_append]
-          exact ih hsubt htn cur hinvt
+          exact ih hiso.2 hsubt htn cur hinvt
         | true =>
           obtain ⟨n, hw, p, hp, hpp, e, he, hen⟩ := hsw.2 hM
           rw [hw]
@@ -1285,13 +1294,11 @@ theorem extAuthzEnabled_good (o : BuildOpts) (c : CustomOpts) (cps : List Policy
             exact this
           simp only [e2, Option.any_some, hown, if_true, List.map_cons, List.singleton_append]
           congr 1
-          apply ih hsubt htn (some n)
+          apply ih hiso.2 hsubt htn (some n)
           intro n' hn' q hq
           simp only [Option.some.injEq] at hn'
           subst hn'
-          have hqne : q ≠ p.provider := by
-            rw [hpp]; intro e'; exact hprt (e' ▸ hq)
-          have := hiso p hp q (hsubt q hq) hqne e he
+          have := hiso.1 p hp hpp q hq e he
           rw [hen] at this
           exact this
 
@@ -1341,7 +1348,7 @@ theorem ext_authz_enabled_compiled (o : BuildOpts) (c : CustomOpts) (ps : List P
         simp only [Bool.and_eq_true, decide_eq_true_eq] at h ⊢
         exact ⟨hmany.2 h.1, h.2⟩
       simp only [hmf, Bool.false_eq_true, if_false, hm']
-      exact extAuthzEnabled_good o c cps req hnd hiso _ (fun pr hpr => (sortDedup_mem _ pr).1 hpr)
+      exact extAuthzEnabled_good o c cps req hnd _ hiso (fun pr hpr => (sortDedup_mem _ pr).1 hpr)
         (sortDedup_nodup _) none (fun n hn => by cases hn)
 
 /-- `customAsks` over the clause-2 reading of the alias-expanded policies, spelled out on the policies
@@ -1443,13 +1450,22 @@ theorem ext_authz_asked_exact_all (w : Workload) (o : BuildOpts) (c : CustomOpts
   rw [filter_applies_clause2, ← selectPolicies_eq_applies]
   exact ext_authz_asked_exact o c _ req h hnd hiso
 
+theorem isolatedAlong_of_B (o : BuildOpts) (cps : List Policy) (provs : List Str)
+    (h : isolatedAlongB o cps provs = true) : IsolatedAlong o cps provs := by
+  induction provs with
+  | nil => trivial
+  | cons pr t ih =>
+    simp only [isolatedAlongB, Bool.and_eq_true, List.all_eq_true, Bool.or_eq_true, bne_iff_ne, ne_eq,
+      Bool.not_eq_true'] at h
+    refine ⟨?_, ih h.2⟩
+    intro p hp hpp q hq e he
+    rcases h.1 p hp with h1 | h1
+    · exact absurd hpp h1
+    · exact h1 q hq e he
+
 theorem customIsolated_of_B (o : BuildOpts) (ps : List Policy) (h : customIsolatedB o ps = true) :
-    CustomIsolated o (ps.filter (·.action == .custom)) := by
-  intro p hp pr hpr hne e he
-  simp only [customIsolatedB, List.all_eq_true, Bool.or_eq_true, beq_iff_eq, Bool.not_eq_true'] at h
-  rcases h p hp pr hpr with h1 | h1
-  · exact absurd h1 hne
-  · exact h1 e he
+    CustomIsolated o (ps.filter (·.action == .custom)) :=
+  isolatedAlong_of_B o _ _ h
 
 /-- A chain tail made of RBAC filters only (the AUDIT / DENY / ALLOW filters) enables no `ext_authz`. -/
 theorem extAuthzEnabled_rbac_only (fs : List Filter) (cur : Option Str) (req : Request) :
@@ -1465,7 +1481,7 @@ theorem extAuthzEnabled_append_rbac (a : List GFilter) (fs : List Filter) (cur :
   | cons g t ih =>
     cases g with
     | rbac f => simp only [List.cons_append, extAuthzEnabled]; exact ih _
-    | extAuthz n r pfx => simp only [List.cons_append, extAuthzEnabled, ih]
+    | extAuthz n r pfx t => simp only [List.cons_append, extAuthzEnabled, ih]
 
 /-- **CUSTOM comes first**: on the whole chain (CUSTOM filters, then AUDIT, DENY, ALLOW) the external
     authorizers consulted for a request are determined by the CUSTOM policies alone - the `ext_authz`
@@ -1480,6 +1496,72 @@ theorem ext_authz_asked_chain (w : Workload) (o : BuildOpts) (c : CustomOpts) (p
   rw [extAuthzEnabled_append_rbac]
   exact ext_authz_asked_exact_all w o c ps req (hypsOn_of_B _ _ _ h).1 (hypsOn_of_B _ _ _ h).2
     (customIsolated_of_B o _ hiso)
+
+/-! ### ... and WHERE the check requests go -/
+
+theorem extAuthzTargets_eq (fs : List GFilter) (f : Str → ExtTarget)
+    (h : ∀ n r pfx t, GFilter.extAuthz n r pfx t ∈ fs → t = f pfx) (cur : Option Str) (req : Request) :
+    extAuthzTargets fs cur req = (extAuthzEnabled fs cur req).map f := by
+  induction fs generalizing cur with
+  | nil => rfl
+  | cons g rest ih =>
+    have hrest : ∀ n r pfx t, GFilter.extAuthz n r pfx t ∈ rest → t = f pfx :=
+      fun n r pfx t hm => h n r pfx t (List.mem_cons_of_mem _ hm)
+    cases g with
+    | rbac fl => simp only [extAuthzTargets, extAuthzEnabled]; exact ih hrest _
+    | extAuthz n r pfx t =>
+      simp only [extAuthzTargets, extAuthzEnabled, List.map_append, ih hrest]
+      congr 1
+      have : t = f pfx := h n r pfx t (by simp)
+      split <;> simp [this]
+
+theorem extPrefix_drop (pr : Str) : (extPrefix pr).drop (extPrefix []).length = pr := by
+  unfold extPrefix
+  simp
+
+/-- Every `ext_authz` filter of the CUSTOM builder looks for its own provider's prefix and points to
+    that provider's target. -/
+theorem compileCustom_ext_mem (o : BuildOpts) (c : CustomOpts) (ps : List Policy) (n r pfx : Str) (t : ExtTarget)
+    (h : GFilter.extAuthz n r pfx t ∈ compileCustomSelected o c ps) :
+    ∃ pr, pfx = extPrefix pr ∧ t = (c.targetOf pr).onChain o.shapeTCP := by
+  unfold compileCustomSelected at h
+  split at h
+  · cases h
+  · split at h
+    · obtain ⟨pr, _, hpr⟩ := List.mem_map.1 h
+      cases hpr
+    · obtain ⟨pr, _, hpr⟩ := List.mem_flatMap.1 h
+      split at hpr
+      · split at hpr
+        · cases hpr
+        · unfold customFilters at hpr
+          simp only [List.mem_cons, List.not_mem_nil, or_false, reduceCtorEq, false_or,
+            GFilter.extAuthz.injEq] at hpr
+          exact ⟨pr, hpr.2.2.1, hpr.2.2.2⟩
+      · simp only [List.mem_singleton, reduceCtorEq] at hpr
+
+/-- **CUSTOM, where the request is sent**: the targets (service kind, cluster, authority, failure mode,
+    status on error, path prefix) of the `ext_authz` filters the chain consults for a request are
+    exactly the targets the mesh config gives the providers the statement says must be asked. -/
+theorem ext_authz_targets_chain (w : Workload) (o : BuildOpts) (c : CustomOpts) (ps : List Policy) (req : Request)
+    (h : hypsOnB o (selectPolicies w ps) req = true) (hiso : customIsolatedB o (selectPolicies w ps) = true) :
+    extAuthzTargets (compileAll w o c ps) none req =
+      specAskTargets w o.bundle c o.forTCP o.shapeTCP ps req := by
+  have hf : ∀ n r pfx t, GFilter.extAuthz n r pfx t ∈ compileAll w o c ps →
+      t = (c.targetOf (pfx.drop (extPrefix []).length)).onChain o.shapeTCP := by
+    intro n r pfx t hm
+    unfold compileAll at hm
+    rcases List.mem_append.1 hm with hm | hm
+    · obtain ⟨pr, rfl, rfl⟩ := compileCustom_ext_mem o c _ n r pfx t hm
+      rw [extPrefix_drop]
+    · obtain ⟨fl, _, hfl⟩ := List.mem_map.1 hm
+      cases hfl
+  rw [extAuthzTargets_eq _ _ hf, ext_authz_asked_chain w o c ps req h hiso]
+  unfold specAskTargets
+  rw [List.map_map]
+  apply List.map_congr_left
+  intro pr _
+  simp only [Function.comp, extPrefix_drop]
 
 /-- Where `CustomIsolated` fails (multi-provider feature on): providers `x` and `x-ns`.  The request
     matches only the policy of provider `x`; its RBAC filter stores the id
@@ -1497,6 +1579,14 @@ theorem ext_authz_prefix_quirk_witness :
       [extPrefix "x".toList, extPrefix "x-ns".toList] ∧
     specAsksOn exWl exOpts.bundle c false false ps (aliasReq "cluster.local") = ["x".toList] ∧
     customIsolatedB exOpts ps = false := by decide
+
+/-- `opa` before `opa2`: the ids of `opa2` carry `opa`'s prefix, but `opa`'s filters come first - the
+    hypothesis holds (only the continuing direction matters). -/
+example :
+    customIsolatedB exOpts
+      [ { ns := "foo".toList, name := "a".toList, action := .custom, provider := "opa".toList, rules := [{}] },
+        { ns := "foo".toList, name := "b".toList, action := .custom, provider := "opa2".toList, rules := [{}] } ] = true := by
+  decide
 
 /-! ## The authz plugin: lazy cache, listener class, termination builder -/
 
